@@ -181,6 +181,16 @@ func (s *subscription) Publish(ctx context.Context, message []byte) error {
 // HoldPeers makes every later Peers() lookup of peer p on topic park until the
 // returned release function is called (a slow peer lookup).
 func (w *World) HoldPeers(p int, topic string) (release func(), parked func() int) {
+	return w.holdPeers(p, topic, false)
+}
+
+// HoldPeersHard is HoldPeers for a lookup that does not honour its context either (a pubsub layer that is stuck,
+// not merely slow): it returns only when released.
+func (w *World) HoldPeersHard(p int, topic string) (release func(), parked func() int) {
+	return w.holdPeers(p, topic, true)
+}
+
+func (w *World) holdPeers(p int, topic string, hard bool) (release func(), parked func() int) {
 	gate := make(chan struct{})
 	w.mu.Lock()
 	if w.peerHolds == nil {
@@ -189,6 +199,10 @@ func (w *World) HoldPeers(p int, topic string) (release func(), parked func() in
 	}
 	k := fmt.Sprintf("%d|%s", p, topic)
 	w.peerHolds[k] = gate
+	if w.peerHard == nil {
+		w.peerHard = map[string]bool{}
+	}
+	w.peerHard[k] = hard
 	var n int64
 	w.peerParked[k] = &n
 	w.mu.Unlock()
@@ -211,13 +225,18 @@ func (s *subscription) Peers(ctx context.Context) ([]peer.ID, error) {
 	w.mu.Lock()
 	gate := w.peerHolds[k]
 	cnt := w.peerParked[k]
+	hard := w.peerHard[k]
 	w.mu.Unlock()
 	if gate != nil {
 		atomic.AddInt64(cnt, 1)
-		select {
-		case <-gate:
-		case <-ctx.Done():
-			return nil, ctx.Err()
+		if hard {
+			<-gate
+		} else {
+			select {
+			case <-gate:
+			case <-ctx.Done():
+				return nil, ctx.Err()
+			}
 		}
 	}
 	w.mu.Lock()
